@@ -1,6 +1,7 @@
 package main
 
 import (
+	"crypto/sha256"
 	"fmt"
 	"go/types"
 	"math/big"
@@ -189,6 +190,7 @@ func init() {
 		ex.outcome.Reached = append(ex.outcome.Reached, ex.strArg(a[0]))
 		return nil
 	})
+	reg(v("Thorough"), func(ex *Exec, a []Value, _ *Frame) Value { return BoolV{ex.tf.Bool(curTier == "thorough")} })
 	reg(v("Symbolic"), func(ex *Exec, a []Value, _ *Frame) Value { return BoolV{ex.tf.True} })
 	reg(v("Panics"), func(ex *Exec, a []Value, fr *Frame) (ret Value) {
 		ret = BoolV{ex.tf.False}
@@ -651,13 +653,14 @@ func (ex *Exec) indexByte(bs []*Term, c *Term) Value {
 }
 
 // hashArray models a collision-free hash: equal outputs iff equal pre-images (per hash function).
+// Concrete pre-images are hashed for real (sha256); symbolic ones get 32 fresh byte variables.
 func (ex *Exec) hashArray(fn string, pre []*Term, n int) Value {
 	f := ex.tf
-	var out *Term
 	key := fn + "!" + termsKey(pre)
+	var out []*Term
 	for _, h := range ex.hashes {
-		if h.fn == fn && termsKey(h.pre) == termsKey(pre) {
-			out = h.out
+		if h.key == key {
+			out = h.outs
 		}
 	}
 	if out == nil {
@@ -667,20 +670,29 @@ func (ex *Exec) hashArray(fn string, pre []*Term, n int) Value {
 				allConst = false
 			}
 		}
-		_ = allConst
-		out = f.Var("hash!"+key, SInt, big0, new(big.Int).Sub(pow256(n), big1))
-		for _, h := range ex.hashes {
-			if h.fn != fn {
-				continue
+		out = make([]*Term, n)
+		if allConst && fn == "sha256" {
+			raw := make([]byte, len(pre))
+			for i, p := range pre {
+				raw[i] = byte(p.C.Int64())
 			}
-			ex.assume(f.Eq(f.Eq(out, h.out), ex.bytesEq(pre, h.pre)))
+			sum := sha256.Sum256(raw)
+			for i := range out {
+				out[i] = f.I64(int64(sum[i]))
+			}
+		} else {
+			ex.hashCnt++
+			for i := range out {
+				out[i] = f.Var(fmt.Sprintf("hash!%s!%d!%d", fn, ex.hashCnt, i), SInt, big0, big.NewInt(255))
+			}
 		}
-		ex.hashes = append(ex.hashes, &hashEntry{fn: fn, pre: pre, out: out})
-		ex.noteAssumption(fn + " is modelled as an injective uninterpreted function (no collisions)")
+		// injectivity is instantiated lazily: when two digests are compared with each other (hashPairAt)
+		ex.hashes = append(ex.hashes, &hashEntry{fn: fn, pre: pre, outs: out, key: key, id: len(ex.hashes), concrete: allConst && fn == "sha256"})
+		ex.noteAssumption(fn + " is modelled as an injective uninterpreted function (no collisions); concrete sha256 inputs are hashed for real")
 	}
 	es := make([]Value, n)
 	for i := range es {
-		es[i] = Int{f.ByteOf(out, i, n)}
+		es[i] = Int{out[i]}
 	}
 	return Array{es}
 }
